@@ -13,6 +13,98 @@ type Leaf struct {
 	Path string // ".f.g" style path below the value ("" for scalars; ".#arr" etc. for slice parts)
 	Sort Sort
 	T    types.Type // Go type of the leaf (nil for synthetic parts)
+	Ref  string     // allocation space of the reference held in this leaf ("" = not a reference into a modelled heap)
+}
+
+// refKeyOf names the allocation space (id space with its own watermark) that references of type t point into:
+// one per heap family, so that allocating an object of one type never changes which ids of another type exist.
+//
+//	*T (struct or box)  "H_<T>"      map types  "M_<underlying map type>"      []T, *[N]T  "E_<T>"
+func refKeyOf(t types.Type) string {
+	if t == nil {
+		return ""
+	}
+	reg := func(k string, obj types.Type) string {
+		if _, ok := keyType[k]; !ok {
+			keyType[k] = obj
+		}
+		return k
+	}
+	switch u := types.Unalias(t).Underlying().(type) {
+	case *types.Pointer:
+		if at, ok := types.Unalias(u.Elem()).Underlying().(*types.Array); ok {
+			return reg("E_"+heapKeyT(at.Elem()), at.Elem())
+		}
+		return reg("H_"+heapKeyT(u.Elem()), u.Elem())
+	case *types.Map:
+		return reg("M_"+mapKeyOf(t), types.Unalias(t).Underlying())
+	case *types.Slice:
+		return reg("E_"+heapKeyT(u.Elem()), u.Elem())
+	}
+	return ""
+}
+
+// keyType: the Go type of the objects living in an allocation space (element type for E_, map type for M_).
+var keyType = map[string]types.Type{}
+
+// exposure: the allocation spaces in which a value of some type can make objects reachable. A callee that is not
+// executed may have allocated whatever its results (and the locations it may write) can reach; only those spaces get a
+// new watermark. all = an interface value is reachable, whose dynamic type is unknown (error and context.Context are
+// assumed not to carry references to modelled objects).
+type exposure struct {
+	keys map[string]bool
+	all  bool
+}
+
+var expoCache = map[types.Type]*exposure{}
+
+func opaqueIface(t types.Type) bool {
+	s := types.TypeString(types.Unalias(t), nil)
+	return s == "error" || s == "context.Context"
+}
+
+func exposureOf(t types.Type) *exposure {
+	if t == nil {
+		return &exposure{keys: map[string]bool{}}
+	}
+	if e, ok := expoCache[t]; ok {
+		return e
+	}
+	e := &exposure{keys: map[string]bool{}}
+	expoCache[t] = e
+	var visitKey func(k string)
+	visitLeaves := func(tt types.Type) {
+		for _, l := range Layout(tt) {
+			switch {
+			case l.Ref != "":
+				visitKey(l.Ref)
+			case l.T != nil:
+				if _, isI := types.Unalias(l.T).Underlying().(*types.Interface); isI && !opaqueIface(l.T) {
+					e.all = true
+				}
+			}
+		}
+	}
+	visitKey = func(k string) {
+		if e.keys[k] {
+			return
+		}
+		e.keys[k] = true
+		kt := keyType[k]
+		if kt == nil {
+			return
+		}
+		if m, ok := kt.(*types.Map); ok {
+			visitLeaves(m.Key())
+			visitLeaves(m.Elem())
+			return
+		}
+		visitLeaves(kt)
+	}
+	if _, isT := t.(*types.Tuple); isT || true {
+		visitLeaves(t)
+	}
+	return e
 }
 
 var layoutCache = map[types.Type][]Leaf{}
@@ -75,7 +167,7 @@ func sortOfBasic(b *types.Basic) Sort {
 // Layout returns the leaves of a Go type.
 func Layout(t types.Type) []Leaf {
 	if st, ok := t.(seenType); ok {
-		return []Leaf{{"", ArrSort(st.ks, SBool), nil}}
+		return []Leaf{{"", ArrSort(st.ks, SBool), nil, ""}}
 	}
 	if g, ok := t.(globalObj); ok {
 		return Layout(g.T)
@@ -86,22 +178,22 @@ func Layout(t types.Type) []Leaf {
 	}
 	var out []Leaf
 	if s, ok := opaqueStructSort(t); ok {
-		out = []Leaf{{"", s, t}}
+		out = []Leaf{{"", s, t, ""}}
 		layoutCache[t] = out
 		return out
 	}
 	switch u := t.Underlying().(type) {
 	case *types.Basic:
-		out = []Leaf{{"", sortOfBasic(u), t}}
+		out = []Leaf{{"", sortOfBasic(u), t, ""}}
 	case *types.Pointer, *types.Map, *types.Chan, *types.Signature, *types.Interface:
-		out = []Leaf{{"", SInt, t}}
+		out = []Leaf{{"", SInt, t, refKeyOf(t)}}
 	case *types.Slice:
-		out = []Leaf{{"#arr", SInt, nil}, {"#off", SInt, nil}, {"#len", SInt, nil}}
+		out = []Leaf{{"#arr", SInt, nil, refKeyOf(t)}, {"#off", SInt, nil, ""}, {"#len", SInt, nil, ""}}
 	case *types.Struct:
 		for i := 0; i < u.NumFields(); i++ {
 			f := u.Field(i)
 			for _, l := range Layout(f.Type()) {
-				out = append(out, Leaf{"." + f.Name() + l.Path, l.Sort, l.T})
+				out = append(out, Leaf{"." + f.Name() + l.Path, l.Sort, l.T, l.Ref})
 			}
 		}
 		if len(out) == 0 {
@@ -111,16 +203,16 @@ func Layout(t types.Type) []Leaf {
 		// arrays by value are modelled as an SMT array from index to a single-leaf element
 		el := Layout(u.Elem())
 		for _, l := range el {
-			out = append(out, Leaf{"#el" + l.Path, ArrSort(SInt, l.Sort), nil})
+			out = append(out, Leaf{"#el" + l.Path, ArrSort(SInt, l.Sort), nil, ""})
 		}
 	case *types.Tuple:
 		for i := 0; i < u.Len(); i++ {
 			for _, l := range Layout(u.At(i).Type()) {
-				out = append(out, Leaf{fmt.Sprintf("#%d%s", i, l.Path), l.Sort, l.T})
+				out = append(out, Leaf{fmt.Sprintf("#%d%s", i, l.Path), l.Sort, l.T, l.Ref})
 			}
 		}
 	case *types.TypeParam:
-		out = []Leaf{{"", SInt, t}}
+		out = []Leaf{{"", SInt, t, ""}}
 	default:
 		panic(fmt.Sprintf("Layout: unsupported type %s (%T)", t, u))
 	}
